@@ -240,7 +240,7 @@ func (e *integEngine) buildGraph(g *GraphSpec) (*scheduler.ExecutionGraph, error
 		case "true":
 			st.Condition = "/bin/true"
 		case "false":
-			st.Condition = "/bin/false"
+			st.Condition = falseCondition(s.Name)
 		case "missing":
 			st.Condition = "/nonexistent/verif-missing-binary"
 		}
